@@ -2,7 +2,7 @@
    binary64 value; the rational |f| and t = int (np.log (abs f) / np.log (10))
    are computed here from the float itself. *)
 From Coq Require Import ZArith NArith List Bool PrimFloat.
-From PM Require Import Base.FloatLib Model.Format.
+From PM Require Import Base.FloatLib Model.Format Proofs.FormatT.
 Import ListNotations.
 
 Definition float_ratio (f : float) : N * N :=
@@ -19,3 +19,11 @@ Definition fmt_case (f : float) (use_e : bool) : list N :=
   render (format_float (fl_signbit f) a den (float_t f) use_e).
 
 Definition fmt_cases (l : list (float * bool)) : list (list N) := map (fun p => fmt_case (fst p) (snd p)) l.
+
+(* the character-level reader of Proofs/FormatT.v on a text: [neg; mantissa; scale] or [-1] *)
+Definition parse_case (s : list N) : list Z :=
+  match parse s with
+  | Some d => [if d_neg d then 1 else 0; Z.of_N (d_mant d); d_scale d]%Z
+  | None => [(-1)%Z]
+  end.
+Definition parse_cases (l : list (list N)) : list (list Z) := map parse_case l.
